@@ -17,24 +17,54 @@ def _ops(hist):
     return [l for l in hist if l.startswith("O ")]
 
 
+def _plist(tok):
+    """'l1,2,3' / 'l' -> [1, 2, 3] / []"""
+    body = tok[1:] if tok.startswith("l") else tok
+    return [int(x) for x in body.split(",") if x not in ("", "-")]
+
+
 def classify(hist, mismatch=""):
-    """Key of a failing (spec-mismatching) history: used to match known findings.
-    hist = lines of the case (header + ops as printed by the harness), mismatch = the driver's line."""
-    if not hist:
+    """Key of a failing (spec-mismatching) history, used to match known findings.  A key is
+    returned ONLY when the exact preconditions of that finding hold for THIS difference; a history
+    that merely contains the operation of a known finding is never keyed.  Everything else -> None
+    (an unkeyed VIOLATION).
+
+    string:retain-inverted needs all of:
+      * the driver tagged the line cls=retain-inverted (it established, from the extracted models,
+        that the previous call was retain, that keep-where-f and remove-where-f differ on the content
+        retain was applied to, and that the observed content is exactly the remove-where-f one);
+      * re-checked here independently on the printed history: the diverging line is the content
+        observation directly after a `retain L` call, the content before that call is B (the last
+        content line before it, verified or resynchronised by the driver), the implementation shows
+        exactly [b in B if b not in L], the reference expects exactly [b in B if b in L], and the two
+        differ."""
+    if not hist or " cls=retain-inverted " not in mismatch:
         return None
     hdr = hist[0].split()
-    kind, flavour = (hdr[1], hdr[2]) if len(hdr) >= 3 else ("?", "?")
+    if len(hdr) < 3 or hdr[1] != "str":
+        return None
     ops = _ops(hist)
     try:
         k = int(mismatch.split(" op=")[1].split()[0])
+        spec_tok = mismatch.split("] spec=")[1].split()[0]
     except Exception:
-        k = len(ops)
-    cur = ops[k - 1].split() if 0 < k <= len(ops) else []
-    prev = ops[k - 2].split() if 1 < k <= len(ops) else []
-    name = cur[1] if len(cur) > 1 else ""
-    impl = cur[-1] if cur else ""
-    if kind == "str" and name == "bytes" and prev and prev[1] == "retain":
-        # String::retain(f) removes the bytes where f is true (doc and std: keeps them); known finding
+        return None
+    if not (2 <= k <= len(ops)):
+        return None
+    cur, prev = ops[k - 1].split(), ops[k - 2].split()
+    if len(cur) != 4 or cur[1] != "bytes" or len(prev) != 5 or prev[1] != "retain" or prev[4] != "ok":
+        return None
+    before = []
+    for l in reversed(ops[:k - 2]):
+        t = l.split()
+        if t[1] == "bytes" and len(t) == 4 and t[3] != "P":
+            before = _plist(t[3])
+            break
+    pred = set(_plist(prev[2]))
+    impl, spec = _plist(cur[3]), _plist(spec_tok)
+    removed_where_true = [b for b in before if b not in pred]
+    kept_where_true = [b for b in before if b in pred]
+    if impl == removed_where_true and spec == kept_where_true and impl != spec:
         return "string:retain-inverted"
     return None
 
@@ -109,19 +139,25 @@ def run(ctx):
     reported = set()
     nviol = 0
     seen_sig = set()
+    # differences without a known-finding class tag are examined first
+    spec_mm.sort(key=lambda m: 1 if " cls=" in m[2] else 0)
     for lbl, cmd, line in spec_mm:
         # one re-run per distinct (container, op, previous op, panicked?) signature, not per line
         opname = line.split("line=[O ")[1].split()[0] if "line=[O " in line else "?"
-        sig = (lbl.split(":")[1], opname, line.split(" prev=")[1].split()[0] if " prev=" in line else "", line.endswith("impl=P"))
+        # the class tag is part of the signature: an untagged difference at the same place is looked at separately
+        sig = (lbl.split(":")[1], opname, line.split(" prev=")[1].split()[0] if " prev=" in line else "", line.endswith("impl=P"),
+               line.split(" cls=")[1].split()[0] if " cls=" in line else "")
         if sig in seen_sig:
             continue
         seen_sig.add(sig)
         case_no = int(line.split("case=")[1].split()[0])
         hist = vlib.extract_case(cmd.split(), driver, case_no)
         key = classify(hist, line)
-        if key in reported:
-            continue
-        reported.add(key)
+        if key is not None:
+            # a known-finding key is reported once; unkeyed differences are never merged with each other
+            if key in reported:
+                continue
+            reported.add(key)
         body = {"history": hist, "harness_cmd": cmd, "mismatch": line, "how_to_rerun": cmd + " | " + driver}
         if nviol < 5:
             # a key listed in known_findings.json prints KNOWN-FINDING; anything else is a VIOLATION
